@@ -284,6 +284,17 @@ impl Space for Adds {
                 a.push(("midnight_skipped", midnight_skipped.to_string()));
                 a
             });
+            // the other public route to the first instant of a day: the receiver's date converted without a time
+            let midnight = zc.zone.local_of(t).div_euclid(NS_PER_DAY) * NS_PER_DAY;
+            if zc.zone.date_is_contiguous(midnight) {
+                let zone = z.timezone().clone();
+                let got = call(|| z.to_plain_date_with_provider(&prov)?.to_zoned_date_time_with_provider(zone.clone(), None, &prov));
+                out.lockstep("to_plain_date().to_zoned_date_time(no time) = start of day", &Ok(sod), &got, |m, v| v.epoch_nanoseconds().as_i128() == *m, || {
+                    let mut a = attrs();
+                    a.push(("midnight_skipped", midnight_skipped.to_string()));
+                    a
+                });
+            }
         }
         if let Some(len) = zc.zone.day_length(t) {
             if len % (3600 * NS) == 0 && len > 0 && len / (3600 * NS) < 256 {
